@@ -1,4 +1,4 @@
-import AkVerif.Lemmas.Table
+import AkVerif.Lemmas.TableRender
 /-!
 # C12 — tables are rectangular, aligned, width-bounded and account for every record
 
@@ -48,44 +48,6 @@ theorem fit_exact (cs : Chunks) (w : Nat) (a : Align) :
     unfold fitSpec
     simp only [this, if_false]
     rw [marks.1, marks.2.1]
-
-private theorem getLast_frame (x y : Char) (l : List Char) : (x :: (l ++ [y])).getLast? = some y := by
-  rw [← List.cons_append, List.getLast?_append]; simp
-
-private theorem setWidths_ok (cols : List Col) (ws : List (Col × Nat))
-    (h : (cols.mapM fun c => match c.width with
-      | some w => Except.ok (c, w)
-      | Option.none => Except.error Err.assertion) = .ok ws)
-    (hinv : ∀ c ∈ cols, ∀ w, c.width = some w → WOk (c, w)) :
-    ws.map (·.1) = cols ∧ ∀ cw ∈ ws, WOk cw := by
-  induction cols generalizing ws with
-  | nil => simp [List.mapM_nil, pure, Except.pure] at h; subst h; simp
-  | cons c cs ih =>
-    rw [List.mapM_cons] at h
-    simp only [bind_ok] at h
-    obtain ⟨cw, hcw, rest, hr, h⟩ := h
-    simp only [pure, Except.pure, Except.ok.injEq] at h
-    subst h
-    cases hw : c.width with
-    | none => simp [hw] at hcw
-    | some w =>
-      simp only [hw, Except.ok.injEq] at hcw
-      subst hcw
-      obtain ⟨h1, h2⟩ := ih rest hr (fun c' hc' => hinv c' (List.mem_cons_of_mem _ hc'))
-      refine ⟨by simp [h1], ?_⟩
-      intro x hx
-      rcases List.mem_cons.mp hx with rfl | hx
-      · exact hinv c List.mem_cons_self w hw
-      · exact h2 x hx
-
-private theorem finalWidths_ok (cols : List Col) (vis : List Record) (ws : List (Col × Nat))
-    (h : finalWidths cols vis = .ok ws)
-    (hinv : ∀ c ∈ cols, ∀ w, c.width = some w → WOk (c, w)) :
-    ws.map (·.1) = cols ∧ ∀ cw ∈ ws, WOk cw := by
-  unfold finalWidths at h
-  split at h
-  · exact setWidths_ok cols ws h hinv
-  · exact detectWidths_ok cols vis ws h
 
 /-- Width bounds. After a table has been printed every column has a width `w ≤ max`, and
 `min ≤ w` whenever the configured bounds are consistent (`min ≤ max`); the columns themselves are
@@ -290,6 +252,66 @@ theorem cell_default (m : Option (List Char)) (v : Val) (cell : Chunks × Align)
   by_cases hm : m = Option.none
   · simp [hm] at h; subst h; simp [dfltCell]
   · simp [hm] at h
+
+/-- No needless truncation. When a table is printed for the first time (no widths yet), every
+column ends up at least as wide as each *visible* record's cell asks for, and as the title asks for,
+up to the column's maximum: a default-type value of at most `max` characters is never cut
+(`fit_exact` then says it is shown in full, padded). -/
+theorem full_when_fits (t t' : Tbl) (ls : List Line) (h : render t = .ok (t', ls))
+    (hfresh : ∀ c ∈ t.fmt.cols, c.width = Option.none) :
+    ∃ tls ws nTitle body, Rendered t t' ls tls ws nTitle body ∧
+      let vis := (applyLimits t.fmt.limF t.fmt.limL tls t.records.length).1
+      (∀ cw ∈ ws, ∀ r, TLine.row r ∈ vis → ∀ v l, fetch cw.1.field r = .ok v →
+        cellLen cw.1.field.ftype cw.1.modifier v = .ok l → min cw.1.maxW l ≤ cw.2) ∧
+      (∀ cw ∈ ws, cw.1.field.ftype = .dflt → ∀ r, TLine.row r ∈ vis → ∀ v, fetch cw.1.field r = .ok v →
+        v.text.length ≤ cw.1.maxW → v.text.length ≤ cw.2) ∧
+      (∀ cw ∈ ws, ∀ tl, titleLen cw.1.field = .ok tl → tl ≤ cw.1.maxW → tl ≤ cw.2) := by
+  obtain ⟨tls, ws, nTitle, body, R⟩ := render_elim h
+  have hd := finalWidths_fresh _ _ ws hfresh R.ws_ne R.ws_eq
+  have hw := detectWidths_wide _ _ ws hd
+  have ht := detectWidths_titleWide _ _ ws hd
+  have hmem : ∀ r, TLine.row r ∈ (applyLimits t.fmt.limF t.fmt.limL tls t.records.length).1 →
+      r ∈ (applyLimits t.fmt.limF t.fmt.limL tls t.records.length).1.filterMap TLine.row? := by
+    intro r hr
+    simp only [List.mem_filterMap]
+    exact ⟨_, hr, rfl⟩
+  refine ⟨tls, ws, nTitle, body, R, ?_, ?_, ?_⟩
+  · intro cw hcw r hr v l hv hl
+    exact hw cw hcw r (hmem r hr) v l hv hl
+  · intro cw hcw hft r hr v hv hle
+    have := hw cw hcw r (hmem r hr) v v.text.length hv (by rw [hft]; rfl)
+    omega
+  · intro cw hcw tl htl hle
+    have := ht cw hcw tl htl
+    omega
+
+/-- Title content. The `i`-th title line shows, between the separators of column `j`, the fitted
+`i`-th title line of that column's own field (an empty cell when the field has fewer title lines). -/
+theorem title_content (t t' : Tbl) (ls : List Line) (h : render t = .ok (t', ls)) :
+    ∃ tls ws nTitle body, Rendered t t' ls tls ws nTitle body ∧
+      ∀ i, i < nTitle → ∀ (j : Nat) (c : Col) (w : Nat), ws[j]? = some (c, w) →
+        ((joinCells (titleCells i ws)).drop (colOffset (ws.map (·.2)) j + 1)).take w
+          = (fitToWidth (titleCell (titleItem c.field i)).1 w (titleCell (titleItem c.field i)).2).flatten := by
+  obtain ⟨tls, ws, nTitle, body, R⟩ := render_elim h
+  refine ⟨tls, ws, nTitle, body, R, ?_⟩
+  intro i _ j c w hj
+  have hcell : (titleCells i ws)[j]? = some (fitText (titleCell (titleItem c.field i)) w) := by
+    clear R
+    induction ws generalizing j with
+    | nil => simp at hj
+    | cons cw cs ih =>
+      obtain ⟨c0, w0⟩ := cw
+      cases j with
+      | zero =>
+        simp only [List.getElem?_cons_zero, Option.some.injEq, Prod.mk.injEq] at hj
+        obtain ⟨rfl, rfl⟩ := hj
+        simp [titleCells]
+      | succ k =>
+        simp only [List.getElem?_cons_succ] at hj
+        simpa [titleCells] using ih k hj
+  have := joinCells_slice (titleCells i ws) j _ hcell
+  rw [titleCells_lengths, fitText_length] at this
+  exact this
 
 /-- Records and limits. `tls` — the lines before limits — hold every record, in order, with break
 lines only directly in front of a record. With natural-number limits `first`/`last`:
